@@ -9,6 +9,10 @@
         the same for seeded/<id>/patch.diff; prints which checks report each change and compares with the
         detection recorded in its meta.json (own property / cross / exit 2)
 
+  tools/memcheck.py compose [--jobs N] [--repo DIR] [refactoring-prefix ...]
+        every seeded change on top of every refactoring that touches the same file (both applied in memory): the check
+        recorded for the seeded change must still report it (exit 2 = the refactoring made the rule lose track: honest, but a miss)
+
 Not a registered check; the registered thorough tier does the same per property (SELFTEST-PATCHES).
 """
 import json
@@ -73,8 +77,103 @@ def one(args):
         return (ident, 'crash', traceback.format_exc()[-400:], {}, {})
 
 
+def _load(kind, ident):
+    ptxt = open(os.path.join(HERE, kind, ident, 'patch.diff'), 'rb').read().decode('utf-8', 'replace')
+    paths = set(p for p in re.findall(r'(?m)^\+\+\+ b/(\S+)', ptxt) if p.startswith('pexpect/') and p.endswith('.py'))
+    blocks = re.split(r'(?m)^(?=diff --git )', ptxt)
+    return ''.join(b for b in blocks if any(('+++ b/' + p_) in b for p_ in paths)), paths
+
+
+def pair(args):
+    r, s_, prop, root = args
+    try:
+        from sa.loader import Repo, AnalysisError
+        from sa import report
+        from sa.main import analyse
+        from sa.selftest import _apply_unified
+        rt, rp = _load('refactored', r)
+        st, sp = _load('seeded', s_)
+        srcs = {}
+        for p_ in rp | sp:
+            fp = os.path.join(root, p_)
+            if not os.path.exists(fp):
+                return (r, s_, prop, 'skip', 'file missing')
+            srcs[p_] = open(fp, 'rb').read().decode('utf-8')
+        n1 = _apply_unified(dict((k, v) for k, v in srcs.items() if k in rp), rt)
+        if n1 is None:
+            return (r, s_, prop, 'skip', 'refactoring does not apply')
+        srcs.update(n1)
+        n2 = _apply_unified(dict((k, v) for k, v in srcs.items() if k in sp), st)
+        if n2 is None:
+            return (r, s_, prop, 'skip', 'seed does not apply on top')
+        srcs.update(n2)
+        ov = {}
+        for p_, txt in srcs.items():
+            try:
+                compile(txt, p_, 'exec')
+            except SyntaxError:
+                return (r, s_, prop, 'skip', 'does not compile')
+            ov[os.path.basename(p_)[:-3]] = txt
+        try:
+            repo = Repo(root, overrides=ov)
+        except AnalysisError as e:
+            return (r, s_, prop, 'exit2', 'loader: ' + str(e)[:120])
+        known = report.load_known()
+        run = analyse(prop, repo, 'quick')
+        nv = [o for o in run.violations() if report.match_known(o, known) is None]
+        if nv:
+            return (r, s_, prop, 'detected', '%s-%s %s' % (nv[0].prop, nv[0].clause, nv[0].what[:100]))
+        if run.errors:
+            return (r, s_, prop, 'exit2', run.errors[0][:150])
+        return (r, s_, prop, 'MISSED', '')
+    except Exception:
+        return (r, s_, prop, 'crash', traceback.format_exc()[-300:])
+
+
+def compose(a, jobs, root, pref):
+    tasks = []
+    rids = sorted(d for d in os.listdir(os.path.join(HERE, 'refactored')) if os.path.exists(os.path.join(HERE, 'refactored', d, 'patch.diff')))
+    if pref:
+        rids = [i for i in rids if any(i.startswith(p) for p in pref)]
+    sids = sorted(d for d in os.listdir(os.path.join(HERE, 'seeded')) if os.path.exists(os.path.join(HERE, 'seeded', d, 'patch.diff')))
+    sfiles = dict((s_, _load('seeded', s_)[1]) for s_ in sids)
+    smeta = dict((s_, json.load(open(os.path.join(HERE, 'seeded', s_, 'meta.json')))) for s_ in sids)
+    for r in rids:
+        rf = _load('refactored', r)[1]
+        for s_ in sids:
+            if not (sfiles[s_] & rf):
+                continue
+            m = smeta[s_]
+            det = m.get('detection', {})
+            prop = m.get('property') if det.get('own_property_fires', True) else (det.get('fired') or [m.get('property')])[0]
+            tasks.append((r, s_, prop, root))
+    with mp.get_context('fork').Pool(jobs) as pool:
+        res = pool.map(pair, tasks, chunksize=4)
+    stats = {}
+    for r, s_, prop, st, why in res:
+        stats[st] = stats.get(st, 0) + 1
+        if st in ('MISSED', 'crash'):
+            print('%-7s %-6s %-4s %-8s %s' % (r, s_, prop, st, why))
+    e2 = {}
+    for r, s_, prop, st, why in res:
+        if st == 'exit2':
+            e2.setdefault(r, []).append(s_)
+    for r in sorted(e2):
+        print('%-7s exit2 under %s' % (r, ' '.join(e2[r])))
+    print('pairs: %s' % ', '.join('%s=%d' % kv for kv in sorted(stats.items())))
+    return 1 if stats.get('MISSED') or stats.get('crash') else 0
+
+
 def main():
     a = sys.argv[1:]
+    if a and a[0] == 'compose':
+        jobs = int(a[a.index('--jobs') + 1]) if '--jobs' in a else 14
+        root = a[a.index('--repo') + 1] if '--repo' in a else '/repo'
+        skipn = set()
+        for fl in ('--jobs', '--repo'):
+            if fl in a:
+                skipn |= {a.index(fl), a.index(fl) + 1}
+        return compose(a, jobs, root, [x for i, x in enumerate(a[1:], 1) if i not in skipn])
     if not a or a[0] not in ('refactored', 'seeded'):
         print(__doc__)
         return 2
